@@ -15,6 +15,7 @@ import dali.driver.serial as S
 # the deeper thorough case list (kept in cases()) could not be re-validated end to end after the final harness
 # changes within the session: see symx/runner.py
 THOROUGH_CASES = "quick"
+THOROUGH_SECOND = 0.2      # (every obligation through cvc5 as well ran past 15 minutes)
 
 META = {
     "level_text": "Bounded symbolic verification of bus-traffic reporting: (1) serial receive path (LUBA and "
